@@ -26,6 +26,8 @@ pub struct Alpha {
     pub max_reopen: usize,
     pub create: Vec<u8>,
     pub delete: Vec<u8>,
+    /// further operations offered whenever the keyspaces they touch exist (C09: explicit durability, persist)
+    pub extra: Vec<Op>,
 }
 
 impl Alpha {
@@ -45,6 +47,7 @@ impl Alpha {
             max_reopen: 2,
             create: vec![],
             delete: vec![],
+            extra: vec![],
         }
     }
 
@@ -357,6 +360,16 @@ impl Property for SeqProp {
         for ks in &a.clear {
             if exists(ks) {
                 ops.push(Op::Clear { ks: *ks });
+            }
+        }
+        for x in &a.extra {
+            let ok = match x {
+                Op::BatchD(items, _) => items.iter().all(|i| exists(&i.ks) && w.write_enabled(i.ks)),
+                Op::TxD(items, _) => w.cfg.kind != DbKind::Plain && items.iter().all(|i| exists(&i.ks) && w.write_enabled(i.ks)),
+                _ => true,
+            };
+            if ok {
+                ops.push(x.clone());
             }
         }
         for (ks, items) in &a.ingest {
